@@ -39,7 +39,21 @@ class AgentSim(sysrun.SymSim):
                     mon.remote_refused(self.sid, 'get', time, e)
                     raise
                 mon.got(self.sid, time, data)
-            if eng.flag(f'{self.sid}.set{k}.{j}'):
+            if CTX.get('concurrent') and eng.flag(f'{self.sid}.set2{k}.{j}'):
+                # two requests in flight at once (a multi-agent simulator whose agents act concurrently): two source ids, one target
+                import asyncio
+                yield latency(self.sid)
+                v1, v2 = f'{self.sid}#{k}.{j}', f'{self.sid}.f#{k}.{j}'
+                mon.request(self.sid, 'set', time)
+                try:
+                    yield asyncio.gather(self.mosaik.set_data({f'{self.sid}.e': {f'{target}.e': {'im': v1}}}),
+                                         self.mosaik.set_data({f'{self.sid}.f': {f'{target}.e': {'im': v2}}}))
+                except RemoteException as e:
+                    mon.remote_refused(self.sid, 'set', time, e)
+                    raise
+                mon.did_set(self.sid, time, target, v1)
+                mon.did_set(self.sid, time, target, v2, src=f'{self.sid}.f')
+            elif eng.flag(f'{self.sid}.set{k}.{j}'):
                 yield latency(self.sid)
                 val = f'{self.sid}#{k}.{j}'
                 mon.request(self.sid, 'set', time)
@@ -90,12 +104,12 @@ class Monitor:
     def remote_refused(self, sid, kind, time, e):
         self.refusals.append((sid, kind, time, e.remote_type))
 
-    def did_set(self, sid, time, target, val):
+    def did_set(self, sid, time, target, val, src=None):
         self.nset += 1
         if sid not in self.allowed:
             self.eng.alarm('C16.notrefused', f'set_data by {sid} (no async_requests connection) was accepted')
             return
-        key = (target, f'{sid}.e')
+        key = (target, src or f'{sid}.e')
         if key in self.pending and target == 'A':
             # an undelivered value is about to be overwritten: fine if A has no step up to now (the agent is faster than A),
             # a lost value if A still has to perform a step at or before this time - that step was "A's next step" for the old value
@@ -167,7 +181,7 @@ def async_run(n_agents, unconnected, cfg, data_edge=False, triggered=False, feed
         CTX.clear()
         CTX.update(eng=eng, loop=loop, K=cfg.get('K', 2), until=until, ref=None, log=log, sync=set(cfg.get('sync', ())),
                    hook=mon.hook, mon=mon, targets={}, requests_per_step=cfg.get('requests_per_step', 1), bounded_times=True,
-                   no_get=cfg.get('no_get', False))
+                   no_get=cfg.get('no_get', False), concurrent=cfg.get('concurrent', False))
         outcome, exc = None, None
         with sysrun.patched(salt=cfg.get('salt', 0)), remote_ctx():
             w = mosaik.World({'S': {'python': 'vk.sysrun:SymSim'}, 'G': {'python': 'vk.kernels.c16:AgentSim'},
@@ -243,13 +257,15 @@ def jobs(tier):
     out = []
 
     def add(n_agents, unconnected, K, until, syncs, caches=(True, False), data_edge=False, rps=1, D=0, split=None, no_get=False, lazy=True,
-            triggered=False, feeder=False, remote=()):
+            triggered=False, feeder=False, remote=(), concurrent=False):
         for sync in syncs:
             for cache in caches:
                 cfg = {'until': until, 'K': K, 'cache': cache, 'lazy': lazy, 'D': D, 'sync': sync, 'requests_per_step': rps, 'no_get': no_get}
                 if remote:
                     cfg['remote'] = list(remote)
-                j = {'id': ('' if not remote else f"remote={''.join(remote)}|") + f"async|n={n_agents}|x={unconnected}|K={K}|until={until}|sync={''.join(sync) or '-'}|cache={int(cache)}|de={data_edge if isinstance(data_edge, str) else int(data_edge)}|rps={rps}|D={D}|ng={int(no_get)}|lazy={int(lazy)}|trig={int(triggered)}|feed={int(feeder)}",
+                if concurrent:
+                    cfg['concurrent'] = True
+                j = {'id': ('' if not remote else f"remote={''.join(remote)}|") + ('conc|' if concurrent else '') + f"async|n={n_agents}|x={unconnected}|K={K}|until={until}|sync={''.join(sync) or '-'}|cache={int(cache)}|de={data_edge if isinstance(data_edge, str) else int(data_edge)}|rps={rps}|D={D}|ng={int(no_get)}|lazy={int(lazy)}|trig={int(triggered)}|feed={int(feeder)}",
                      'harness': 'vk.kernels.c16:async_run',
                      'params': {'n_agents': n_agents, 'unconnected': unconnected, 'cfg': cfg, 'data_edge': data_edge, 'triggered': triggered, 'feeder': feeder},
                      'budget_s': 300}
@@ -279,7 +295,12 @@ def jobs(tier):
     add(1, None, 2, 3, [['A', 'B']], caches=(True,), remote=['B'])
     add(1, None, 2, 3, [['A', 'B']], caches=(False,), remote=['A', 'B'])
     add(1, 'none', 2, 2, [['A', 'B', 'X']], caches=(True,), remote=['X'])
+    # two set_data requests of one simulator in flight at once (two source ids)
+    add(1, None, 2, 3, [['A', 'B']], caches=(True,), remote=['B'], concurrent=True, no_get=True)
+    add(1, None, 2, 3, [[]], caches=(True,), concurrent=True, no_get=True)
     if not q:
+        add(1, None, 3, 3, [['A', 'B']], remote=['A', 'B'], concurrent=True)
+        add(1, None, 2, 3, [['A'], ['B']], concurrent=True, lazy=False)
         add(1, None, 3, 3, [['A', 'B']], remote=['B'])
         add(1, None, 3, 3, [['A', 'B']], remote=['A', 'B'], lazy=False)
         add(1, None, 2, 3, [['B'], []], caches=(True,), remote=['B'])
